@@ -1064,12 +1064,20 @@ func (edb *EventDb) addStat(event Event) (err error) {
 			return ErrInvalidEventData
 		}
 		users := make([]User, 0, len(*bms))
+		userIdx := make(map[string]int, len(*bms))
 		authMint := make(map[string]currency.Coin)
 		for _, bm := range *bms {
-			users = append(users, User{
-				UserID:    bm.UserID,
-				MintNonce: bm.MintNonce,
-			})
+			if i, ok := userIdx[bm.UserID]; ok {
+				if bm.MintNonce > users[i].MintNonce {
+					users[i].MintNonce = bm.MintNonce
+				}
+			} else {
+				userIdx[bm.UserID] = len(users)
+				users = append(users, User{
+					UserID:    bm.UserID,
+					MintNonce: bm.MintNonce,
+				})
+			}
 
 			for _, sig := range bm.Signers {
 				mv, ok := authMint[sig]
